@@ -132,7 +132,9 @@ CHECKS["C19"]["text"] += " Also: -quiet / -verbosity / quote on standard input, 
 CHECKS["C20"]["text"] += (" RetryInd.tla: Apalache proves the loop's invariant for all parameter values. A grid point with forty failures in one call; successes with empty / nil body and headers; the bound is also checked through the "
                           "command line of tools/check. spec/HttpsGet.tla (the wrapped transport and DefaultHTTPSGetter's shape) is validated as a non-verdict part.")
 CHECKS["C15"]["text"] += " spec/AttestTool.tla (the tools/attest command line around the same client calls: stages, exit status, what a refused run leaves behind) is validated against the real binary as a non-verdict part."
+CHECKS["C17"]["text"] += " spec/ExtendTool.tla (the tools/extend command line around rtmr.ExtendEventLog: stages, exit status, what -quiet silences) is validated against the real binary as a non-verdict part."
 ENGINES += [
+    {"name": "extendtool", "path": "spec/ExtendTool.tla", "serves_properties": ["C17"], "kind_free_text": "TLA+ spec of the tools/extend command line + TLC + runs of the real binary (non-verdict part)"},
     {"name": "attesttool", "path": "spec/AttestTool.tla", "serves_properties": ["C15"], "kind_free_text": "TLA+ spec of the tools/attest command line + TLC + runs of the real binary (non-verdict part)"},
     {"name": "isolation", "path": "spec/VerifyIsolation.tla", "serves_properties": ["C01"], "kind_free_text": "TLA+ spec of concurrent verifications with private buffers (+ shared-buffer counter-model) + TLC + concurrent driver"},
     {"name": "httpsget", "path": "spec/HttpsGet.tla", "serves_properties": ["C10", "C20"], "kind_free_text": "TLA+ spec of the HTTPS transport under the retrying getter + TLC + in-harness TLS servers behind a CONNECT proxy"},
